@@ -1,10 +1,12 @@
 (* C06 — Plant/CHP unit commitment: run time, down time, ramps, starts, heat and fuel.
-   Model: Plant.v (CHPAsset / Plant without start / shutdown ramp PROFILES), compared with the implementation per instance.
+   Model: Plant.v (CHPAsset / Plant incl. start / shutdown ramp profiles given in the frequency of the grid), compared with the
+   implementation per instance.
    Theorems (any number of steps T, any durations): the rows are stated as the inequalities Plant.v emits (row shapes proved in
-   PlantProofs.v).  Partial: start / shutdown ramp profiles (assets.py:1692-1702, 1731-1775, 1797-1800, 1821-1827) and the
-   interplay "initial obligations by bounds" are covered by the implementation oracle only. *)
+   PlantProofs.v / PlantProfiles.v).  Partial: the release of the ramp rows during profiles (assets.py:1797-1827), separate heat
+   profiles, profiles in another frequency (interpolation) and the interplay "initial obligations by bounds" are covered by the
+   correspondence of the model builder and by the implementation oracle only. *)
 From Coq Require Import QArith Qabs ZArith List Bool.
-From EAO Require Import Num LP Plant PlantProofs PlantRows.
+From EAO Require Import Num LP Plant PlantProofs PlantRows PlantProfiles.
 Import ListNotations.
 Open Scope Q_scope.
 
@@ -79,6 +81,73 @@ Theorem C06_plant_runtime_rows_sound :
   runtime_spec T R tar (var_at x on_idx).
 Proof. exact plant_runtime_rows_sound. Qed.
 Print Assumptions C06_plant_runtime_rows_sound.
+
+(* ---------- start / shutdown ramp profiles take precedence (capacity rows of Plant.v with their profile terms) ---------- *)
+(* the capacity rows of step i:  0 <= v - min_cap*on + terms_lo,  v - max_cap*on + terms_hi <= 0  (row shape: C06_cap_row_shape) *)
+Theorem C06_cap_row_shape :
+  forall (vr : srow) (onp : nat) (cap : Q) (terms : srow) x,
+  sdot (vr ++ [(onp, - cap)] ++ terms) x == sdot vr x - cap * nth onp x 0 + sdot terms x.
+Proof. exact cap_row_shape. Qed.
+Print Assumptions C06_cap_row_shape.
+
+(* no start flag within reach behind step i and no shutdown flag within reach ahead: ordinary capacity bounds *)
+Theorem C06_capacity_outside_profiles :
+  forall start_idx shut_idx T i minc maxc sr_lo sr_hi sd_lo sd_hi x v on,
+  0 <= v - minc * on + sdot (pl_profile_terms start_idx shut_idx T i minc sr_lo sd_lo) x ->
+  v - maxc * on + sdot (pl_profile_terms start_idx shut_idx T i maxc sr_hi sd_hi) x <= 0 ->
+  List.length sr_hi = List.length sr_lo -> List.length sd_hi = List.length sd_lo ->
+  (forall j, (j < List.length sr_lo)%nat -> (j <= i)%nat -> nth (start_idx + i - j) x 0 == 0) ->
+  (forall j, (j < List.length sd_lo)%nat -> (i + j + 1 < T)%nat -> nth (shut_idx + i + j + 1) x 0 == 0) ->
+  minc * on <= v /\ v <= maxc * on.
+Proof. exact capacity_outside_profiles. Qed.
+Print Assumptions C06_capacity_outside_profiles.
+
+(* on, started j0 steps ago, no other flag within reach: the j0-th values of the start profile bound the output *)
+Theorem C06_start_profile_bounds :
+  forall start_idx shut_idx T i minc maxc sr_lo sr_hi sd_lo sd_hi x v on,
+  0 <= v - minc * on + sdot (pl_profile_terms start_idx shut_idx T i minc sr_lo sd_lo) x ->
+  v - maxc * on + sdot (pl_profile_terms start_idx shut_idx T i maxc sr_hi sd_hi) x <= 0 ->
+  List.length sr_hi = List.length sr_lo -> List.length sd_hi = List.length sd_lo ->
+  forall j0, on == 1 -> (j0 < List.length sr_lo)%nat -> (j0 <= i)%nat -> nth (start_idx + i - j0) x 0 == 1 ->
+  (forall j, (j < List.length sr_lo)%nat -> (j <= i)%nat -> j <> j0 -> nth (start_idx + i - j) x 0 == 0) ->
+  (forall j, (j < List.length sd_lo)%nat -> (i + j + 1 < T)%nat -> nth (shut_idx + i + j + 1) x 0 == 0) ->
+  nth j0 sr_lo 0 <= v /\ v <= nth j0 sr_hi 0.
+Proof. exact start_profile_bounds. Qed.
+Print Assumptions C06_start_profile_bounds.
+
+(* on, turning off j0+1 steps later, no other flag within reach: the j0-th values of the shutdown profile bound the output *)
+Theorem C06_shutdown_profile_bounds :
+  forall start_idx shut_idx T i minc maxc sr_lo sr_hi sd_lo sd_hi x v on,
+  0 <= v - minc * on + sdot (pl_profile_terms start_idx shut_idx T i minc sr_lo sd_lo) x ->
+  v - maxc * on + sdot (pl_profile_terms start_idx shut_idx T i maxc sr_hi sd_hi) x <= 0 ->
+  List.length sr_hi = List.length sr_lo -> List.length sd_hi = List.length sd_lo ->
+  forall j0, on == 1 -> (j0 < List.length sd_lo)%nat -> (i + j0 + 1 < T)%nat -> nth (shut_idx + i + j0 + 1) x 0 == 1 ->
+  (forall j, (j < List.length sd_lo)%nat -> (i + j + 1 < T)%nat -> j <> j0 -> nth (shut_idx + i + j + 1) x 0 == 0) ->
+  (forall j, (j < List.length sr_lo)%nat -> (j <= i)%nat -> nth (start_idx + i - j) x 0 == 0) ->
+  nth j0 sd_lo 0 <= v /\ v <= nth j0 sd_hi 0.
+Proof. exact shutdown_profile_bounds. Qed.
+Print Assumptions C06_shutdown_profile_bounds.
+
+(* start and shutdown flags defined together (and kept apart in every step): they are exactly the transitions *)
+Theorem C06_start_shutdown_flags_exact :
+  forall on_t on_prev st sh : Q,
+  on_t - on_prev - st + sh == 0 -> st + sh <= 1 -> 0 <= st -> 0 <= sh ->
+  (on_t == 0 \/ on_t == 1) -> (on_prev == 0 \/ on_prev == 1) -> (st == 0 \/ st == 1) -> (sh == 0 \/ sh == 1) ->
+  (st == 1 <-> (on_prev == 0 /\ on_t == 1)) /\ (sh == 1 <-> (on_prev == 1 /\ on_t == 0)).
+Proof. exact startshut_flags_exact. Qed.
+Print Assumptions C06_start_shutdown_flags_exact.
+(* without the row  st + sh <= 1  both flags can be set while the unit stays on (the defect repaired in /repo, e2b7e16) *)
+Example C06_flags_without_separation_refuted :
+  exists on_t on_prev st sh : Q, on_t - on_prev - st + sh == 0 /\ on_t == 1 /\ on_prev == 1 /\ st == 1 /\ sh == 1.
+Proof. exists 1, 1, 1, 1. repeat split; reflexivity. Qed.
+
+(* non-vacuity of the profile theorems: step 3, started at step 2 (one step ago), profile [1/2; 1] .. [3/4; 3/2], capacity 2 .. 4 *)
+Example C06_profiles_nonvacuous :
+  let x := [0; 0; 0; (5#4);  0; 0; 1; 0;  0; 0; 0; 0] in
+  let v := nth 3 x 0 in
+  0 <= v - 2 * 1 + sdot (pl_profile_terms 4 8 4 3 2 [1#2; 1] []) x /\
+  v - 4 * 1 + sdot (pl_profile_terms 4 8 4 3 4 [3#4; 3#2] []) x <= 0 /\ nth (4 + 3 - 1) x 0 == 1.
+Proof. cbv zeta. split; [|split]; vm_compute; intuition discriminate. Qed.
 
 (* non-vacuity: T = 5, minimum run time 3, off before: the pattern 0 1 1 1 0 is admissible, 0 1 1 0 0 is not *)
 Definition pat (l : list Q) : nat -> Q := fun t => nth t l 0.
